@@ -486,6 +486,8 @@ def do_cores(spec, rec, rng0):
     for i in range(spec["n"]):
         rng = random.Random("%s:%d" % (spec["rng"], i))
         sym = rng.choice(["third periodic", "third periodic", "full"])
+        if i == 0:
+            sym = "third periodic"  # every shard has at least one core with symmetry-cut blocks (floor edit.block-symmetry-factor-3)
         cspec = gen.core_spec(rng, rings=rng.randint(2, 4), symmetry=sym, ndesigns=rng.randint(1, 3), nblocks=rng.randint(2, 3))
         w = {"symmetry": sym, "map": {"%d,%d" % k: v for k, v in cspec["grids"]["core"]["contents"].items()}, "case": i}
         try:
